@@ -6,6 +6,8 @@ import (
 
 	"github.com/ipld/go-car/cmd/car/lib"
 	carv2 "github.com/ipld/go-car/v2"
+	"github.com/ipld/go-car/v2/index"
+	"github.com/multiformats/go-multicodec"
 )
 
 // checkLibraryAccepts: C05's last clause. The library's own inspection must accept a finished
@@ -44,6 +46,61 @@ func checkLibraryAccepts(s *sState, path string, b []byte) string {
 	if rootsOK {
 		if err := lib.VerifyCar(path); err != nil {
 			return "lib.VerifyCar rejects the finished file: " + err.Error()
+		}
+	}
+	return ""
+}
+
+// checkFlattenVsRegenerate (C11, last sentence): the index a writing session flattens into
+// the file and an index regenerated from the finished payload answer every lookup identically
+// and are byte-identical whenever no two sections share a digest.
+func checkFlattenVsRegenerate(s *sState, b []byte) string {
+	if s.O.V1 || !s.Fin {
+		return ""
+	}
+	h, err := refParseV2(b)
+	if err != nil || h.Index == nil {
+		return ""
+	}
+	opts := []carv2.Option{carv2.StoreIdentityCIDs(s.O.Ident)}
+	if s.O.Codec == "sorted" {
+		opts = append(opts, carv2.UseIndexCodec(multicodec.CarIndexSorted))
+	}
+	regen, err := carv2.GenerateIndex(bytes.NewReader(h.Payload), opts...)
+	if err != nil {
+		return "regenerating the index from the finished payload failed: " + err.Error()
+	}
+	var buf bytes.Buffer
+	if _, err := index.WriteTo(regen, &buf); err != nil {
+		return "serializing the regenerated index failed: " + err.Error()
+	}
+	shared := false
+	seen := map[string]bool{}
+	for _, id := range s.Secs {
+		d := alphaByID[id].DigI
+		if seen[d] {
+			shared = true
+		}
+		seen[d] = true
+	}
+	if !shared && !bytes.Equal(buf.Bytes(), h.Index) {
+		return fmt.Sprintf("flattened index (%d bytes) and regenerated index (%d bytes) differ although no two sections share a digest", len(h.Index), buf.Len())
+	}
+	emb, err := index.ReadFrom(bytes.NewReader(h.Index))
+	if err != nil {
+		return "embedded index unreadable: " + err.Error()
+	}
+	for _, q := range alphabet {
+		a, b2 := map[uint64]int{}, map[uint64]int{}
+		e1 := emb.GetAll(q.Cid, func(o uint64) bool { a[o]++; return true })
+		e2 := regen.GetAll(q.Cid, func(o uint64) bool { b2[o]++; return true })
+		if (e1 == nil) != (e2 == nil) || len(a) != len(b2) {
+			return fmt.Sprintf("lookup of %s differs between the flattened (%v, err=%v) and the regenerated index (%v, err=%v)", q.ID, a, e1, b2, e2)
+		}
+		for k, v := range a {
+			if b2[k] != v {
+				return fmt.Sprintf("lookup of %s differs between the flattened and the regenerated index", q.ID)
+			}
 		}
 	}
 	return ""
